@@ -429,55 +429,66 @@ func skipString(src string, pos int) (ret int, ep int) {
 	return int(uintptr(sp) - uintptr((*rt.GoString)(unsafe.Pointer(&src)).Ptr)), ep
 }
 
-//go:nocheckptr
-func skipPair(src string, pos int, lchar byte, rchar byte) (ret int) {
-	if pos+1 >= len(src) {
-		return -int(types.ERR_EOF)
+// max nesting depth of a skipped value, same as MAX_RECURSE of the native implementation
+const maxSkipDepth = 4096
+
+// skipContainer skips the JSON object or array beginning at src[pos] and checks its structure
+// (separators, member names, literals and numbers), like the native skip_one() does.
+func skipContainer(src string, pos int, depth int) (ret int) {
+	if depth >= maxSkipDepth {
+		return -int(types.ERR_RECURSE_EXCEED_MAX)
+	}
+	isObj := src[pos] == '{'
+	end := byte(']')
+	if isObj {
+		end = '}'
 	}
 
-	sp := rt.IndexCharUint(src, pos)
-	se := rt.StrBoundary(src)
-
-	if *(*byte)(unsafe.Pointer(sp)) != lchar {
-		return -int(types.ERR_INVALID_CHAR)
+	// empty container
+	if pos = SkipBlank(src, pos+1); pos < 0 {
+		return pos
+	}
+	if src[pos] == end {
+		return pos + 1
 	}
 
-	sp += 1
-	nbrace := 1
-	inquote := false
-
-	for sp < se {
-		c := *(*byte)(unsafe.Pointer(sp))
-		if c == '\\' {
-			sp += 2
-			continue
-		} else if c == '"' {
-			inquote = !inquote
-		} else if c == lchar {
-			if !inquote {
-				nbrace += 1
+	for {
+		if isObj {
+			if pos, _ = skipString(src, pos); pos < 0 {
+				return pos
 			}
-		} else if c == rchar {
-			if !inquote {
-				nbrace -= 1
-				if nbrace == 0 {
-					sp += 1
-					break
-				}
+			if pos = SkipBlank(src, pos); pos < 0 {
+				return pos
 			}
+			if src[pos] != ':' {
+				return -int(types.ERR_INVALID_CHAR)
+			}
+			pos++
 		}
-		sp += 1
+		if pos, _ = skipValue(src, pos, depth+1); pos < 0 {
+			return pos
+		}
+		if pos = SkipBlank(src, pos); pos < 0 {
+			return pos
+		}
+		switch src[pos] {
+		case end:
+			return pos + 1
+		case ',':
+			if pos = SkipBlank(src, pos+1); pos < 0 {
+				return pos
+			}
+		default:
+			return -int(types.ERR_INVALID_CHAR)
+		}
 	}
-
-	if nbrace != 0 {
-		return -int(types.ERR_INVALID_CHAR)
-	}
-
-	runtime.KeepAlive(src)
-	return int(uintptr(sp) - uintptr((*rt.GoString)(unsafe.Pointer(&src)).Ptr))
 }
 
 func SkipValue(src string, pos int) (ret int, start int) {
+	return skipValue(src, pos, 0)
+}
+
+func skipValue(src string, pos int, depth int) (ret int, start int) {
 	pos = SkipBlank(src, pos)
 	if pos < 0 {
 		return pos, -1
@@ -487,10 +498,8 @@ func SkipValue(src string, pos int) (ret int, start int) {
 		ret = decodeNull(src, pos)
 	case '"':
 		ret, _ = skipString(src, pos)
-	case '{':
-		ret = skipPair(src, pos, '{', '}')
-	case '[':
-		ret = skipPair(src, pos, '[', ']')
+	case '{', '[':
+		ret = skipContainer(src, pos, depth)
 	case 't':
 		ret = decodeTrue(src, pos)
 	case 'f':
